@@ -6,6 +6,7 @@ package sched
 
 import (
 	"fmt"
+	"strings"
 	"sync"
 	"time"
 
@@ -160,18 +161,31 @@ func (s *Sched) Run(choose Chooser) error {
 	for step := 0; step < 10000; step++ {
 		// wait until nothing is running
 		deadline := time.Now().Add(s.Watchdog)
+		lastProbe := time.Now()
 		for {
+			probed := false
 			s.mu.Lock()
 			running := 0
 			for _, t := range s.tasks {
 				if t.st == stRunning && t.external && !dbproxy.GoroutineAlive(t.gid) {
 					t.st = stDone
 				}
+				if t.st == stRunning && t.gid != 0 && time.Since(lastProbe) > 300*time.Microsecond {
+					// a task stuck on a lock held by a parked task is not going to reach a yield point
+					if r := dbproxy.GoroutineWaitReason(t.gid); strings.Contains(r, "Mutex") || strings.HasPrefix(r, "semacquire") || strings.HasPrefix(r, "sync.") {
+						t.st = stBlocked
+						s.Blocked++
+					}
+					probed = true
+				}
 				if t.st == stRunning {
 					running++
 				}
 			}
 			s.mu.Unlock()
+			if probed {
+				lastProbe = time.Now()
+			}
 			if running == 0 {
 				break
 			}
